@@ -272,8 +272,8 @@ Definition senc_iv_used (fl cnt : N) (raw : list N) (iv_in : N) : N :=
               end
        end.
 
-(* the relations of ibox_wf between len(IVs), len(SubSamples) and the data consumed are CHECKED here on the state
-   computed from senc_parse (None if they fail: a correspondence mismatch), not derived from the loop *)
+(* the relations of ibox_wf between len(IVs), len(SubSamples) and the data consumed hold for the state computed from
+   senc_parse: the check below never fails (C04InfoSencProofs.senc_parsed_state_defined) *)
 Definition senc_parsed_state (fl cnt : N) (raw : list N) (iv_in : N) : option ibox :=
   match senc_parse fl cnt raw iv_in with
   | Ok (true, nivs, nsub, _, _) =>
